@@ -449,8 +449,10 @@ def versions(cur: str) -> list[str]:
 def run(ctx):
     descs = descriptions(ctx.tier)
     chunks = [descs[i::32] for i in range(32)]
+    # incl. names that are not in Unicode normal form C (decomposed accent,
+    # ANGSTROM SIGN): a path must be used in the spelling it was given
     names = ["plain", "nested/deep/er", "ünï cødé/日本 語", "with blank/ d s ",
-             "orig/ds2", "a.b/c-d_e"]
+             "orig/ds2", "a.b/c-d_e", "cafe\u0301/nfd", "\u212bngstr\u00f6m"]
     fmts = ("fb", "npz") if ctx.tier == "quick" else ("fb", "npz", "tfrec")
     rel = [(f, n, how, ob) for f in fmts for n in names
            for how in ("copy", "move")
